@@ -102,6 +102,11 @@ def judge(case):
         final = resolver_fn(rname)()
     except Exception as e:
         import traceback
+        from vlib.gen_report import BAD_SCORES
+        if isinstance(e, ValueError) and 'Invalid Score string' in str(e) and any(spec['kw'].get('score') in BAD_SCORES for spec in case['specs']):
+            # a score outside the documented grammar: the report is rejected as a whole, which is a clean answer
+            MAIN_REPORT.full_clear()
+            return Result(viol, False, classes + ['rejected-unparsable-score'])
         tb = traceback.extract_tb(e.__traceback__)[-1]
         viol.append(V('C01|resolve-raises|%s@%s' % (type(e).__name__, tb.name),
                       'resolve() raised %s: %s (at %s:%s)' % (type(e).__name__, e, tb.filename, tb.lineno)))
